@@ -50,6 +50,12 @@ func genC14(r *rand.Rand, run int, tier string) *Scenario {
 	sc.TR = tr
 
 	names := []string{"users", "orders", "prices", "misc", "extra"}
+	if chance(r, 0.3) {
+		// cache names are arbitrary strings: ones that need escaping in a URL, in pairs that a
+		// wrong escaping would confuse with each other
+		names = []string{"eu+us", "eu us", "r&d", "r", "a=b", "a", "ü/x?y#z", "100%25", "100%", "a%20b", "a b"}
+	}
+
 	r.Shuffle(len(names), func(i, j int) { names[i], names[j] = names[j], names[i] })
 
 	fam := map[string]string{}
